@@ -106,3 +106,35 @@ class _Sub:
 
     def ob(self, rule, key, ok, what, **kw):
         return self.ctx.ob(self.rule, key, ok, what, **kw)
+
+
+def thorough(ctx):
+    """R-4: compile-fail witnesses (type level; rustdoc only type-checks, the compiling twins are no_run)"""
+    import os
+    import re
+    import shutil
+    import subprocess
+    import tempfile
+    verif = os.path.dirname(os.path.dirname(os.path.dirname(os.path.abspath(__file__))))
+    src = os.path.join(verif, "witness")
+    d = tempfile.mkdtemp(prefix="coset-witness-")
+    try:
+        os.makedirs(os.path.join(d, "src"))
+        toml = open(os.path.join(src, "Cargo.toml.in")).read().replace("@REPO@", os.path.abspath(ctx.repo))
+        open(os.path.join(d, "Cargo.toml"), "w").write(toml)
+        shutil.copy(os.path.join(src, "src", "lib.rs"), os.path.join(d, "src", "lib.rs"))
+        shutil.copy(os.path.join(ctx.repo, "Cargo.lock"), os.path.join(d, "Cargo.lock"))
+        env = dict(os.environ, CARGO_TARGET_DIR=os.path.join(verif, "out", "witness-target"), CARGO_NET_OFFLINE="true")
+        r = subprocess.run(["cargo", "+nightly", "test", "--doc", "--offline"], cwd=d, env=env, stdout=subprocess.PIPE,
+                           stderr=subprocess.STDOUT, text=True)
+        tests = re.findall(r"test src/lib.rs - \(line (\d+)\) - (compile fail|compile) \.\.\. (\w+)", r.stdout)
+        n_fail = sum(1 for t in tests if t[1] == "compile fail")
+        n_twin = sum(1 for t in tests if t[1] == "compile")
+        for line, kind, res in sorted(tests, key=lambda t: int(t[0])):
+            ctx.ob("R-4", "witness:line-%s:%s" % (line, kind.replace(" ", "-")), res == "ok",
+                   "witness at witness/src/lib.rs:%s (%s) behaves as required" % (line, "must not type-check (E0599)" if kind == "compile fail" else "compiling twin (no_run)"))
+        ctx.ob("R-4", "witness-run", r.returncode == 0 and n_fail >= 9 and n_twin >= 5,
+               "cargo +nightly test --doc on the witness crate: %d compile-fail witnesses and %d compiling twins, all as expected" % (n_fail, n_twin),
+               detail={"tail": r.stdout[-400:]}, sample={"compile_fail": n_fail, "twins": n_twin})
+    finally:
+        shutil.rmtree(d, ignore_errors=True)
